@@ -62,6 +62,7 @@ func CheckBatch(b Batch) *kit.Violation {
 
 	old := runtime.GOMAXPROCS(b.Procs)
 	defer runtime.GOMAXPROCS(old)
+	races0 := raceErrors()
 	w, err := buildWorld(int(nAuth), int(nCons), int(nProd), int(nHand))
 	if err != nil {
 		return kit.Failf("harness: %v", err)
@@ -80,6 +81,9 @@ func CheckBatch(b Batch) *kit.Violation {
 	}
 	close(start)
 	wg.Wait()
+	if d := raceErrors() - races0; d > 0 {
+		return kit.Failf("DATA-RACE: the race detector reported %d data race(s) while this batch of %d requests was served (GOMAXPROCS=%d); the reports are in the run's log\n batch: %s", d, n, b.Procs, describe(b))
+	}
 	for i := range b.Reqs {
 		if alone[i] != crowd[i] {
 			return kit.Failf("request %d of %d (GOMAXPROCS=%d) is handled differently in a crowd:\n alone: %s\n crowd: %s\n request: %+v\n batch: %s", i, n, b.Procs, alone[i], crowd[i], b.Reqs[i], describe(b))
@@ -97,7 +101,7 @@ func ownTokenOnly(obs string, i, n int, where string) *kit.Violation {
 		if j == i {
 			continue
 		}
-		for _, pre := range []string{"id-", "sub-", "q-", "b-", "k-", "oa-", "h-", "bad-"} {
+		for _, pre := range []string{"id-", "sub-", "q-", "b-", "k-", "oa-", "h-", "bad-", "z0-", "zs-", "zf-", "ze-"} {
 			if strings.Contains(obs, pre+token(j)) {
 				return kit.Failf("request %d (%s) observed a value of request %d (%s%s): %s", i, where, j, pre, token(j), obs)
 			}
@@ -120,7 +124,7 @@ func genReq(t *rapid.T) Req {
 		CT:     rapid.SampledFrom([]string{"application/json", "application/x-alt", "application/json", "application/x-alt", "application/json; charset=utf-8", "text/unknown", ""}).Draw(t, "ct"),
 		// only decisive Accept headers: the order of a route's produces list is a map order inside the code under test
 		Accept: rapid.SampledFrom([]string{"application/json", "application/x-alt", "application/x-alt, application/json;q=0.5", "application/json, application/x-alt;q=0.1", "text/unknown"}).Draw(t, "accept"),
-		Cred:   rapid.SampledFrom([]string{"key1", "key2", "both", "bearer", "key1", "key2", "none", "bad1", "bad2", "badbearer"}).Draw(t, "cred"),
+		Cred:   rapid.SampledFrom([]string{"key1", "key2", "both", "bearer", "key1", "key2", "none", "bad1", "bad2", "badbearer", "zero-int", "zero-string", "zero-bool", "zero-struct"}).Draw(t, "cred"),
 		Body:   rapid.SampledFrom([]string{"ok", "ok", "ok", "ok", "missing-field", "garbage", "none"}).Draw(t, "body"),
 		N:      rapid.SampledFrom([]string{"", "1", "7", "x", "2147483648"}).Draw(t, "n"),
 	}
